@@ -45,7 +45,6 @@ class Verifier(Executor):
         return inv, f"{short}.loop{k}"
 
     def ex_For(self, s, st, k):
-        if s.orelse: raise Unsupported("for-else")
         def got(it, st2):
             return self.run_for(s, it, st2, k)
         return self.ev(s.iter, st, got)
@@ -108,7 +107,16 @@ class Verifier(Executor):
             st = st.fact(z3.ForAll([i], z3.Implies(st.alive[i], na[i]))).but(alive=na)
         if only_refs is None or "warned" in (only_names or ()):
             st = st.but(warned=z3.Or(st.warned, S.fresh("warned", z3.BoolSort())))
-        return st
+        g = dict(st.ghost)
+        for gk in list(g) + [n[6:] for n in (only_names or ()) if n.startswith("ghost:")]:
+            if only_names is not None and "ghost:" + gk not in only_names: continue
+            if gk.startswith("count:"):
+                nv = S.fresh("cnt", z3.IntSort())
+                st = st.fact(nv >= g.get(gk, z3.IntVal(0)))
+                g[gk] = nv
+            else:
+                g[gk] = S.fresh("last", z3.BoolSort())
+        return st.but(ghost=g)
 
     def write_set(self, body_runner, st: St):
         """Dry run of one iteration from a fully havoced state: which cells / locals does it write?"""
@@ -132,6 +140,8 @@ class Verifier(Executor):
                     names.add(n)
             if st2.alive is not st_h.alive: names.add("alive")
             if st2.warned is not st_h.warned: names.add("warned")
+            for gk, gv in st2.ghost.items():
+                if st_h.ghost.get(gk) is not gv: names.add("ghost:" + gk)
         dummy = Frame(lambda v, s: end(s), lambda e, s: end(s), None, "dry")
         dummy.fn, dummy.qual = getattr(st.fr, "fn", None), getattr(st.fr, "qual", None)
         dummy.loops = [(end, end)]
@@ -182,7 +192,7 @@ class Verifier(Executor):
         # (4) after the loop: invariant at n (or the state at a `break`)
         st_e = self.havoc_all(st, only_refs=refs, only_names=names)
         st_e = st_e.assume(inv_at(st_e, n))
-        k(st_e.but(fr=fr))
+        self.ex(s.orelse, st_e.but(fr=fr), k)          # for-else: only when the loop was not left by break
         for sb in after:
             k(sb.but(fr=fr))
 
@@ -202,7 +212,7 @@ class Verifier(Executor):
     def unroll_for(self, s, tsq, n, st, k):
         fr = st.fr
         def it(j, st2):
-            if j == n: return k(st2.but(fr=fr))
+            if j == n: return self.ex(s.orelse, st2.but(fr=fr), k)
             def go(ts, st3, kk):
                 if not ts: return kk(st3)
                 t, sq = ts[0]
